@@ -101,7 +101,9 @@ func vH_C19_rollup_pass3() { vRollUpPass(3) }
 
 // Focused order check: two (or three) un-rolled entries, first roll-up pass,
 // clock arbitrary and non-decreasing at every reading inside the pass.
-func vOrderedNoRollUp(k int) {
+func vOrderedNoRollUp(k int) { vRollUpFocused(k, true) }
+
+func vRollUpFocused(k int, checkOrder bool) {
 	var hist []*pb.History
 	var prev int64
 	for i := 0; i < k; i++ {
@@ -117,7 +119,7 @@ func vOrderedNoRollUp(k int) {
 	vAssert(vSum(c.history) == before, "compaction preserves the total")
 	var last int64
 	for i, e := range c.history {
-		if i > 0 {
+		if i > 0 && checkOrder {
 			vAssert(e.GetTimeUnixMilli() >= last, "compaction never disorders the history in time")
 		}
 		last = e.GetTimeUnixMilli()
@@ -131,4 +133,6 @@ func vOrderedNoRollUp(k int) {
 }
 
 func vH_C19_rollup_order2() { vOrderedNoRollUp(2) }
+func vH_C19_rollup_total2() { vRollUpFocused(2, false) }
+func vH_C19_rollup_total3() { vRollUpFocused(3, false) }
 func vH_C19_rollup_order3() { vOrderedNoRollUp(3) }
